@@ -30,12 +30,23 @@ RULE = ('(1) exhaustive: the 103 exception classes of the model enum (names, dir
         'connection refused); (5) the same faults under ChunkStoreVisFlagsWeights of a v4 data set (NPY and S3); '
         '(6) strace of put_chunk compared with the model op list, then SIGKILL / ENOSPC / EIO / EACCES injected at '
         'each system call of the put (quick: a sample) with and without a previous chunk, and a genuine short write '
-        'on a full tmpfs for direct_write.  A case is non-trivial when a fault is present; distinct by (part, store, '
-        'geometry, fault, offset).')
+        'on a full tmpfs (plain and direct_write, with and without a previous chunk); (7) put_chunk_noraise under a '
+        'file-size limit L (RLIMIT_FSIZE in a child; a write crossing L returns a short count, a write at L fails with '
+        'EFBIG): every L in 0..size+1 of a 140-byte chunk file x {no previous chunk, previous good chunk}, for a '
+        '9728-byte chunk (two write(2) calls) and a direct_write chunk the offsets around header start/end, 512/4096/'
+        '8192-byte boundaries, file end, padded end plus a seeded random sample strictly inside header and body '
+        '(thorough: every offset of files <= 2500 bytes, more geometries incl. a 96128-byte chunk); the straced '
+        'system-call results of every put are fed to the model state machine as its event list and report, final '
+        'state, temp state and the calls issued are compared.  A case is non-trivial when a fault is present; '
+        'distinct by (part, store, geometry, fault, offset / limit, previous chunk).')
 ASSUMPTIONS = ['S3 cases use retries=0 so a persistent truncation exhausts the read retries at once (retry schedule: C09)',
                'a SIGKILL injected on entry of a system call may or may not let that call take effect: both model '
                'crash points k and k+1 are accepted',
                'the short-write case needs permission to mount a 16 KiB tmpfs; it is skipped (and counted) otherwise',
+               'the file-size-limit sweep relies on CPython ignoring SIGXFSZ (a write beyond RLIMIT_FSIZE returns a short '
+               'count / EFBIG instead of killing the process); without strace only its property half runs',
+               'after the model run of a limited put has ended (error raised) the real code may issue further FAILING '
+               'write calls (BufferedWriter flushing again on close): accepted, they have no effect',
                'header text parser of the executable model handles the canonical header numpy writes for simple dtypes']
 
 IDX = {ctor: i for i, (ctor, _) in enumerate(EXN)}
@@ -866,10 +877,63 @@ def strace_fast():
     return _STRACE_FAST
 
 
+_ATTACH = [True]
+
+
+class _Done:
+    def __init__(self, stdout, stderr, returncode):
+        self.stdout, self.stderr, self.returncode = stdout, stderr, returncode
+
+
+def run_child_attached(cmd, trace, tmpn, finaln, inject, timeout):
+    """Fault injection needs every traced system call to stop (no seccomp filter), which makes the Python start-up
+    of the child slow; so the child starts untraced, imports everything, says READY and waits; strace (with the
+    injection) is attached to it, and only then it is told to do the put.  Returns None when attaching fails."""
+    import select
+    if os.path.exists(trace):
+        os.remove(trace)
+    p = subprocess.Popen(cmd, stdin=subprocess.PIPE, stdout=subprocess.PIPE, stderr=subprocess.PIPE, text=True,
+                         env=dict(child_env(), C08_WAIT='1'))
+    st = None
+    try:
+        line = ''
+        if select.select([p.stdout], [], [], 60)[0]:
+            line = p.stdout.readline()
+        if line.strip() != 'READY':
+            out, err = p.communicate(timeout=timeout)
+            return _Done(line + out, err, p.returncode)      # e.g. CONSTRUCT <error>: nothing to trace
+        st = subprocess.Popen(['strace', '-f', '-p', str(p.pid), '-o', trace, '-e', 'trace=' + SYSCALLS, '-P', tmpn, '-P', finaln,
+                               '-e', 'inject=' + inject], stdout=subprocess.DEVNULL, stderr=subprocess.PIPE, text=True)
+        ok = False
+        if select.select([st.stderr], [], [], 15)[0]:
+            ok = 'attached' in st.stderr.readline()
+        if not ok:
+            p.kill()
+            p.communicate()
+            return None
+        out, err = p.communicate('\n', timeout=timeout)
+        try:
+            st.wait(timeout=15)
+        except subprocess.TimeoutExpired:
+            st.kill()
+        return _Done(out, err, p.returncode)
+    finally:
+        if p.poll() is None:
+            p.kill()
+        if st is not None and st.poll() is None:
+            st.kill()
+
+
 def run_child(d, direct, dt, shape, seed, inject=None, trace=None, timeout=180):
     base = os.path.join(d, 'a', '_'.join('%05d' % 0 for _ in shape))
     tmpn, finaln = base + '.writing.npy', base + '.npy'
     cmd = [sys.executable, CHILD, d, '1' if direct else '0', dt, ','.join(str(s) for s in shape), str(seed)]
+    if trace and inject and _ATTACH[0]:
+        r = run_child_attached(cmd, trace, tmpn, finaln, inject, timeout)
+        if r is not None:
+            res = [l for l in r.stdout.splitlines() if l.startswith('RESULT ')]
+            return (res[0].split()[1:] if res else None), tmpn, finaln, r
+        _ATTACH[0] = False      # strace -p does not work here: trace the child from its start instead
     if trace:
         pre = ['strace', '-f'] + ([] if inject else strace_fast()) + ['-o', trace, '-e', 'trace=' + SYSCALLS, '-P', tmpn, '-P', finaln]
         if inject:
@@ -1108,13 +1172,50 @@ def part_short_write(ctx, tmp):
         ctx.count('short_write_cases')
     finally:
         subprocess.run(['umount', mnt], capture_output=True)
+    # the same on the plain path and on top of a previous good chunk (property only): the file system fills up
+    # strictly inside the body, write(2) comes back short (page granularity), then ENOSPC
+    dt, shape = 'u1', (9000,)
+    new, old = make_chunk(dt, shape, 2), make_chunk(dt, shape, 1)
+    new_bytes, old_bytes = _old_bytes(new), _old_bytes(old)
+    for direct, with_old in ((False, False), (False, True), (True, True)):
+        if subprocess.run(['mount', '-t', 'tmpfs', '-o', 'size=16k', 'tmpfs', mnt], capture_output=True).returncode != 0:
+            ctx.count('short_write_env_unavailable')
+            return
+        try:
+            os.makedirs(mnt + '/a')
+            finaln = mnt + '/a/00000.npy'
+            if with_old:
+                with open(finaln, 'wb') as f:       # 3 of the 4 pages: one page is left for the new chunk
+                    f.write(old_bytes)
+            else:
+                with open(mnt + '/filler', 'wb') as f:
+                    f.write(b'\0' * 8192)
+            rep, tmpn, finaln, _ = run_child(mnt, direct, dt, shape, 2)
+            fin = file_entry(finaln)
+            state = 'absent' if not fin else 'old' if bytes(fin[0]) == old_bytes else 'new' if bytes(fin[0]) == new_bytes else 'damaged'
+            case = dict(part='short_write', direct_write=direct, dtype=dt, shape=list(shape), previous_chunk=with_old,
+                        free_bytes=4096 if with_old else 8192)
+            sig = 'part=short_write;direct=%s;previous=%s;symptom=' % (direct, 'good_chunk' if with_old else 'absent')
+            ctx.traces_validated += 1
+            if rep is None and direct:
+                ctx.count('direct_write_unsupported')
+                continue
+            if state != ('old' if with_old else 'absent'):
+                ctx.disagree(sig + 'final_' + state, case, state, 'old' if with_old else 'absent',
+                             'a put on a full file system left neither the previous state under the final name')
+            if rep is None or rep[1] == 'builtins.NoneType' or rep[0] != 'returned':
+                ctx.disagree(sig + 'failure_swallowed', case, rep, 'a returned error object', 'failed put (ENOSPC inside the body) not reported')
+            ctx.note_case(('short_write', direct, with_old), nontrivial=True, sample=dict(case, report=rep, final=state))
+            ctx.count('short_write_cases')
+        finally:
+            subprocess.run(['umount', mnt], capture_output=True)
 
 
 # ------------------------------------------------------------------------------------------------
 # part 7: puts under a file-size limit at every byte offset (short writes on the plain and the direct path)
 
 LIMIT_CONFIGS_QUICK = [(False, 'u1', (3, 4)), (False, '<f8', (40, 30)), (True, 'u1', (9000,))]
-LIMIT_CONFIGS_MORE = [(False, '<c8', (2, 3, 2)), (False, '<f8', (300, 40)), (False, 'u1', (70000,)), (True, 'u1', (3, 4)),
+LIMIT_CONFIGS_MORE = [(False, '<c8', (2, 3, 2)), (False, '<i2', (40, 25)), (False, '<f8', (300, 40)), (False, 'u1', (70000,)), (True, 'u1', (3, 4)),
                       (True, '<c8', (40, 30)), (False, '<f4', (5,))]
 
 
@@ -1128,8 +1229,9 @@ def limit_plan(ctx, direct, S, hdr, every):
         lims = {0, 1, 2, hdr // 2, hdr - 1, hdr, hdr + 1, S - 2, S - 1, S, S + 1}
         for b in (512, 4096, 8192, 65536, 131072):
             lims |= {b - 1, b, b + 1}
-        lims |= {ctx.rng.randrange(1, hdr) for _ in range(6)}
-        lims |= {ctx.rng.randrange(hdr + 1, S) for _ in range(14)}
+        n = 1 if ctx.tier != 'thorough' else 6 if S <= 20000 else 2
+        lims |= {ctx.rng.randrange(1, hdr) for _ in range(6 * n)}
+        lims |= {ctx.rng.randrange(hdr + 1, S) for _ in range(14 * n)}
     if direct:
         lims |= {k for k in range(0, S + pad + 1, 512)} | {S + pad, S + pad + 1}
     out = []
@@ -1204,7 +1306,7 @@ def part_put_limit(ctx, tmp, only=None):
         if only is not None:
             plan = [[None, 0], [only[3], 1 if only[4] else 0]]
         else:
-            plan = [[None, 0]] + limit_plan(ctx, direct, S, hlen, every=(S <= 200 or (ctx.tier == 'thorough' and S <= 20000 and not direct)))
+            plan = [[None, 0]] + limit_plan(ctx, direct, S, hlen, every=(S <= 200 or (ctx.tier == 'thorough' and S <= 2500 and not direct)))
         trace = d + '/trace.txt'
         cmd = [sys.executable, CHILD, d, '1' if direct else '0', dt, ','.join(str(x) for x in shape), '2']
         use_strace = shutil.which('strace') is not None
